@@ -166,8 +166,7 @@ fn distinct_centre_boxes(r: &mut Rng, n: usize, lat: bool) -> Vec<Aabb> {
 /// follow-up updates after a build: the tree must stay valid and complete under refit / rebalance / insert / remove
 fn follow_up(r: &mut Rng, h: &mut Hist, lat: bool, fresh0: usize) {
     let m = gen_margin(r, lat);
-    if r.bool() { h.refit(m); }
-    if r.bool() { h.rebalance(m); }
+    if r.bool() { h.refit(m); if r.bool() { h.rebalance(m); } }
     let live: Vec<usize> = (0..h.live.len()).filter(|i| h.live[*i]).collect();
     for _ in 0..r.below(6) { if live.is_empty() { break; } let id = *r.pick(&live); let b = moved(r, &h.boxes[id].clone(), lat); h.ins(id, b); }
     for _ in 0..r.below(4) { if live.is_empty() { break; } let id = *r.pick(&live); h.rem(id); }
